@@ -800,3 +800,13 @@ CONTROLS['C10'] += [
     C('integer index used as cache key as it comes (K)',
       stmt_delete('core', 'CacheDataset.__getitem__', 'item = int(item)'), 'cache-key-is-a-builtin-int'),
 ]
+CONTROLS['C02'] += [
+    C('slice takes index arrays on the integer path (IT)',
+      expr_replace('core', 'SliceDataset.__getitem__', 'isinstance(item, numbers.Integral)', 'isinstance(item, (numbers.Integral, np.ndarray))'),
+      'scalar-path-for-scalar-indices-only', tier='quick'),
+]
+CONTROLS['C10'] += [
+    C('duplicate-key fallback of from_dataset looks the examples up in the dict (E)',
+      expr_replace('core', 'from_dataset', 'list(map(operator.itemgetter(1), items))', '[new[key] for key, _ in items]'),
+      'duplicate-key-fallback-keeps-every-example', tier='quick'),
+]
